@@ -11,6 +11,7 @@ import json
 import os
 import re
 import shutil
+import signal
 import subprocess
 import sys
 import tempfile
@@ -368,11 +369,44 @@ def tlaps(module, timeout=600):
     code: returns (obligations, proved, seconds) or None when the prover is unavailable / stalls."""
     d = os.path.join(spec_copy(), "proofs")
     t0 = time.time()
+
+    def provers():
+        # back-end processes of the proof system (Isabelle's poly / its JVM): tlapm does not always take them along when it
+        # ends, and an orphaned one spins at 100% CPU for good - which is poison for every check that measures time
+        out = subprocess.run(["pgrep", "-f", "polyml|isabelle|Disabelle|zenon|tlapm"], stdout=subprocess.PIPE, text=True).stdout.split()
+        return {int(x) for x in out if x.isdigit()}
+
+    before = provers()
+    proc = None
     try:
-        p = subprocess.run(["tlapm", "--threads", "8", "--cleanfp", module + ".tla"], cwd=d, stdout=subprocess.PIPE, stderr=subprocess.STDOUT,
-                           text=True, timeout=timeout)
-    except (subprocess.TimeoutExpired, FileNotFoundError):
+        proc = subprocess.Popen(["tlapm", "--threads", "8", "--cleanfp", module + ".tla"], cwd=d, stdout=subprocess.PIPE, stderr=subprocess.STDOUT,
+                                text=True, start_new_session=True)
+        out, _ = proc.communicate(timeout=timeout)
+    except FileNotFoundError:
         return None
+    except subprocess.TimeoutExpired:
+        out = None
+    finally:
+        if proc is not None:
+            try:
+                os.killpg(proc.pid, signal.SIGKILL)
+            except (ProcessLookupError, PermissionError):
+                pass
+            try:
+                proc.wait(timeout=10)
+            except Exception:
+                pass
+        for pid in provers() - before - {os.getpid()}:
+            try:
+                os.kill(pid, signal.SIGKILL)
+            except (ProcessLookupError, PermissionError):
+                pass
+    if out is None:
+        return None
+
+    class _P:
+        stdout = out
+    p = _P()
     m = re.search(r"All (\d+) obligations? proved", p.stdout)
     if m:
         return int(m.group(1)), int(m.group(1)), round(time.time() - t0, 1)
